@@ -1043,6 +1043,10 @@ def gen_c13(rng, size=50):
         # the other members name the Hexital's own timeframe explicitly: a second manager over the same buckets
         for m in members[1:]:
             m["tf"] = cfg["tf"]
+    if shared_tf and rng.random() < 0.35:
+        # a member that carries its own candlestick type: the manager is the Hexital's, so it must not matter to the others
+        # (nor depend on who registered first)
+        members[rng.randrange(1, len(members))]["params"]["candlestick_type"] = "HA"
     if cfg["ha"] and shared_tf:
         cfg["ha"] = False  # that combination is C08's known finding, not an interference
     need = max([v for m in members for k, v in m["params"].items() if "period" in k and isinstance(v, int)] + [2])
